@@ -64,6 +64,7 @@ const (
 	sigHbStopped  = "heartbeat-stopped-after-transient-fault"
 	sigHbUndead   = "heartbeat-continues-after-context-cancelled"
 	sigHbKilled   = "heartbeat-stopped-by-another-call"
+	sigUnneeded   = "stale-by-unneeded-operation"
 	sigOpOutcome  = "operation-outcome-unexpected"
 )
 
@@ -272,6 +273,13 @@ func (w *world) actor(override bool) *actor {
 }
 
 func (w *world) rel(t int64) int64 { return t - w.origin }
+
+// holder: an actor whose shim also keeps its own log (every backend operation kind, including those rec does not wrap)
+func (w *world) holder() *actor {
+	a := w.actor(false)
+	a.sh.Rec = true
+	return a
+}
 
 // one call of an observer
 type call struct {
@@ -746,13 +754,81 @@ func shapeBroken(why string, sc scenario) {
 	}
 	count("holder-operations-not-those-of-the-model")
 	note("holder operations differ from the model's holder machine: " + why)
-	addCase(h.App("CHolder", h.Z(periodNs), "0", "(mkAcq (-1) 0 0)", "[]", h.Nat(0), "[]", "[]", "None"),
+	addCase(h.App("CHolder", h.Z(periodNs), "0", "(mkAcq (-1) 0 0)", "[]", h.Nat(0), "[]", "[]", "None", "[]"),
 		map[string]any{"kind": "holder-shape-broken", "why": why, "scenario": sc})
 }
 
 // holderCase: the recorded operations as a run of the holder machine with the measured latencies (landing = end
 // of the operation) and the injected faults.  calls: the API calls made on the lock during the hold (the model says which of them end the loop) -- was
 // cancelled.  ok=false when the record cannot be expressed (then the caller reports the broken tie).
+// backend operation kinds as the model names them
+func bopk(name string) string {
+	switch name {
+	case "OpenFile", "Create":
+		return "BOpenFile"
+	case "f.Write", "f.WriteAt", "f.WriteString":
+		return "BWrite"
+	case "f.Close":
+		return "BClose"
+	case "Chtimes":
+		return "BChtimes"
+	case "f.Sync":
+		return "BSync"
+	case "Stat", "Lstat", "f.Stat":
+		return "BStat"
+	}
+	return "BOther"
+}
+
+// iterShapes: the distinct sequences of backend operation kinds that the holder's complete, fault-free heartbeat
+// iterations issued on the heartbeat file, from the shim's own log (nil log: no claim).  An iteration runs from one
+// OpenFile of the heartbeat file to the next; the last one (possibly cut) and those in which an operation other than
+// the library's second Close failed, was dropped or was injected are left out.
+func iterShapes(w *world, log []shim.Op) []string {
+	var out []string
+	seen := map[string]bool{}
+	var cur []string
+	open, clean := false, true
+	flush := func() {
+		if open && clean && len(cur) > 0 {
+			t := h.List(cur)
+			if !seen[t] {
+				seen[t] = true
+				out = append(out, t)
+			}
+		}
+	}
+	acquired := false
+	for _, o := range log {
+		if o.Path == w.lockP {
+			// after the acquire path (Mkdir, Chtimes) the holder's goroutines never touch the directory itself:
+			// anything on it is Unlock / a re-acquisition through the same object — the hold is over
+			if acquired && o.Name != "Chtimes" && o.Name != "Mkdir" {
+				break
+			}
+			if o.Name == "Chtimes" || (o.Name == "Mkdir" && o.Err == nil) {
+				acquired = true
+			}
+			continue
+		}
+		if o.Path != w.hbP {
+			continue
+		}
+		if o.Name == "OpenFile" || o.Name == "Create" {
+			flush()
+			cur, open, clean = nil, true, true
+		}
+		if !open {
+			continue
+		}
+		if o.Err != nil && o.Name != "f.Close" {
+			clean = false
+		}
+		cur = append(cur, bopk(o.Name))
+	}
+	return out // the last iteration is never flushed
+}
+
 type apiCall struct {
 	Kind string // Coq constructor: KCancelOwn | KUnlock | KTryLock | KLockDeadline | KLockWithTimeout | KIsStale | KReleaseIfStale
 	Same bool   // made on the holder's own lock object
@@ -766,7 +842,7 @@ type hIter struct {
 	created, written, stamped      bool
 }
 
-func holderCase(w *world, ops []recOp, calls []apiCall, aliveUntil int64) (term string, maxGap int64, minStep int64, iters int, ok bool) {
+func holderCase(w *world, ops []recOp, shlog []shim.Op, calls []apiCall, aliveUntil int64) (term string, maxGap int64, minStep int64, iters int, ok bool) {
 	var t0 int64
 	haveMk := false
 	var chDir *recOp
@@ -939,7 +1015,7 @@ loop:
 		alive = "(Some " + h.Z(w.rel(aliveUntil)) + ")"
 	}
 	term = h.App("CHolder", h.Z(periodNs), h.Z(w.rel(t0)),
-		h.App("mkAcq", h.Z(aNow), h.Z(aCh), h.Z(aSpawn)), h.List(cycs), h.Nat(k), h.List(obs), cancel, alive)
+		h.App("mkAcq", h.Z(aNow), h.Z(aCh), h.Z(aSpawn)), h.List(cycs), h.Nat(k), h.List(obs), cancel, alive, h.List(iterShapes(w, shlog)))
 	return term, maxGap, minStep, iters, true
 }
 
@@ -948,7 +1024,7 @@ loop:
 
 func runD30(report bool) bool {
 	w := newWorld(root, false, nextName("d30-"))
-	H := w.actor(false)
+	H := w.holder()
 	O := w.actor(false)
 	ctx, cancel := context.WithCancel(context.Background())
 	defer cancel()
@@ -1043,7 +1119,7 @@ func cadenceCheck(sc scenario) bool {
 	var best int64 = 1 << 62
 	for try := 0; try < 3; try++ {
 		w := newWorld(root, true, nextName("cad-"))
-		H := w.actor(false)
+		H := w.holder()
 		if err := H.lock.TryLock(context.Background()); err != nil {
 			fail(sigOpOutcome, "TryLock on a free lock failed: "+err.Error(), sc)
 			return false
@@ -1619,7 +1695,7 @@ func afterDeath(w *world, H *actor, sc scenario, emit bool) {
 
 func runDeath(sc scenario, emit bool) {
 	w := newWorld(root, false, nextName("death-"))
-	H := w.actor(false)
+	H := w.holder()
 	deadAt, _ := killAfter(H, sc.K)
 	ctx, cancel := context.WithCancel(context.Background())
 	defer cancel()
@@ -1644,7 +1720,7 @@ func runDeath(sc scenario, emit bool) {
 	checkTimestamps(evs, sc)
 	fillNow(evs)
 	if emit {
-		if term, _, _, _, ok := holderCase(w, H.rec.all(), nil, 0); ok {
+		if term, _, _, _, ok := holderCase(w, H.rec.all(), H.sh.Log(), nil, 0); ok {
 			addCase(term, map[string]any{"kind": "holder-dead", "scenario": sc})
 		} else {
 			shapeBroken("holder operations cannot be expressed as a run of the holder machine", sc)
@@ -1674,7 +1750,7 @@ func errnoOf(name string) error {
 // completed at least 5 rounds (so the silence is not latency); conclusive=false when the run could not decide.
 func oneFaultHold(sc scenario, emit bool) (stopped, conclusive bool, what string) {
 	w := newWorld(root, sc.Mem, nextName("fh-"))
-	H := w.actor(false)
+	H := w.holder()
 	O := w.actor(false)
 	var iter, injected, opsAfter int32
 	var lastFault int64
@@ -1766,7 +1842,7 @@ func oneFaultHold(sc scenario, emit bool) (stopped, conclusive bool, what string
 		if refN >= 5 {
 			au = lf + 12*periodNs
 		}
-		if term, _, _, its, ok := holderCase(w, H.rec.all(), nil, au); ok {
+		if term, _, _, its, ok := holderCase(w, H.rec.all(), H.sh.Log(), nil, au); ok {
 			addCase(term, map[string]any{"kind": "holder-faults", "scenario": sc, "iterations": its, "new_iteration_after_last_fault": newIter})
 		} else {
 			shapeBroken("holder operations under transient faults cannot be expressed as a run of the holder machine", sc)
@@ -1792,9 +1868,11 @@ func oneFaultHold(sc scenario, emit bool) (stopped, conclusive bool, what string
 				n++
 				addCase(h.App("CView", h.Z(periodNs), w.viewTerm(v), h.Z(w.rel(v.Lo)), h.Z(w.rel(c.E)), h.Bool(c.Stale)),
 					map[string]any{"kind": "view-faults", "scenario": sc, "stale": c.Stale})
-				ce, cl := traceTerms(w, relevant(evs, c.B, c.E))
-				addCase(h.App("CTrace", h.Z(periodNs), ce, cl, h.Z(w.rel(c.B)), h.Z(w.rel(v.Lo)), h.Z(w.rel(c.B)), h.Z(w.rel(c.E)), h.Z(w.rel(v.Lo)), h.Z(w.rel(c.E)), h.Bool(c.Stale)),
-					map[string]any{"kind": "trace-faults", "scenario": sc, "stale": c.Stale})
+				if !w.mem {
+					ce, cl := traceTerms(w, relevant(evs, c.B, c.E))
+					addCase(h.App("CTrace", h.Z(periodNs), ce, cl, h.Z(w.rel(c.B)), h.Z(w.rel(v.Lo)), h.Z(w.rel(c.B)), h.Z(w.rel(c.E)), h.Z(w.rel(v.Lo)), h.Z(w.rel(c.E)), h.Bool(c.Stale)),
+						map[string]any{"kind": "trace-faults", "scenario": sc, "stale": c.Stale})
+				}
 			}
 		}
 	}
@@ -1831,7 +1909,7 @@ func runFaultHold(sc scenario, emit bool) {
 func oneBusyHold(sc scenario, emit bool) (stopped, conclusive bool, what string) {
 	w := newWorld(root, sc.Mem, nextName("bh-"))
 	rng := newRng(sc.Seed)
-	H := w.actor(false)
+	H := w.holder()
 	ctx, cancel := context.WithCancel(context.Background())
 	defer cancel()
 	if err := H.lock.TryLock(ctx); err != nil {
@@ -2006,7 +2084,7 @@ func oneBusyHold(sc scenario, emit bool) (stopped, conclusive bool, what string)
 		if refN >= 5 {
 			au = tEnd + 12*periodNs
 		}
-		if term, _, _, its, ok := holderCase(w, hops, calls, au); ok {
+		if term, _, _, its, ok := holderCase(w, hops, nil, calls, au); ok {
 			addCase(term, map[string]any{"kind": "holder-busy", "scenario": sc, "iterations": its, "calls": byKind, "new_iteration_after_the_calls": newIter})
 		} else {
 			shapeBroken("holder operations during other API calls cannot be expressed as a run of the holder machine", sc)
@@ -2053,11 +2131,123 @@ func runBusyHold(sc scenario, emit bool) {
 }
 
 // ------------------------------------------------------------------------------------------------
+// 2e. one kind of backend operation at a time is slow (60 ms, below nothing the holder can do about it)
+
+var heartbeatNeeds = map[string]bool{"OpenFile": true, "f.Write": true, "f.Close": true, "Chtimes": true}
+
+// oneDelayHold: a live hold of 12 periods during which every backend operation of ONE kind issued through the
+// holder's file system takes 60 ms longer.  A heartbeat needs to create/truncate, write, close and stamp its file:
+// a slow operation of any other kind (Sync, Stat, Open, Readdirnames ...) must not matter, because the holder has
+// no reason to issue it between taking `now` and recording it.  Returns hit=true when operations of an unneeded
+// kind WERE issued on the heartbeat file and delayed, and the live lock was reported stale.
+func oneDelayHold(sc scenario, emit bool) (hit bool, what string) {
+	w := newWorld(root, sc.Mem, nextName("dh-"))
+	H := w.holder()
+	O := w.actor(false)
+	var delayed int32
+	var on int32
+	H.sh.SetHook(func(op *shim.Op) error {
+		if atomic.LoadInt32(&on) == 1 && op.Name == sc.Op {
+			if op.Path == w.hbP {
+				atomic.AddInt32(&delayed, 1)
+			}
+			time.Sleep(60 * time.Millisecond)
+		}
+		return nil
+	})
+	ctx, cancel := context.WithCancel(context.Background())
+	defer cancel()
+	if err := H.lock.TryLock(ctx); err != nil {
+		fail(sigOpOutcome, "TryLock on a free lock failed: "+err.Error(), sc)
+		return false, ""
+	}
+	atomic.StoreInt32(&on, 1)
+	start := now()
+	var polls []call
+	nStale := 0
+	for now() < start+12*periodNs {
+		c := O.do("IsStale")
+		if c.Stale {
+			nStale++
+		}
+		polls = append(polls, c)
+		time.Sleep(4 * time.Millisecond)
+	}
+	atomic.StoreInt32(&on, 0)
+	ended := now()
+	hops := H.rec.all()
+	shlog := H.sh.Log()
+	_ = H.lock.Unlock(context.Background())
+	nd := int(atomic.LoadInt32(&delayed))
+	eval()
+	mu.Lock()
+	r.Evals(len(polls))
+	r.Count("delayhold:" + sc.Op)
+	mu.Unlock()
+	distinct(fmt.Sprintf("delayhold|%s|%v", sc.Op, sc.Mem))
+	evs, shapeOK, why := holderEvents(w, hops)
+	if !shapeOK {
+		shapeBroken(why, sc)
+	}
+	checkTimestamps(evs, sc)
+	fillNow(evs)
+	if emit {
+		if term, _, _, its, ok := holderCase(w, hops, shlog, nil, 0); ok {
+			addCase(term, map[string]any{"kind": "holder-delay", "scenario": sc, "iterations": its, "delayed_operations": nd, "stale_answers": nStale})
+		} else {
+			shapeBroken("holder operations under a slow "+sc.Op+" cannot be expressed as a run of the holder machine", sc)
+		}
+		n := 0
+		for i, c := range polls {
+			if v, ok := extractView(w, c.Ops); ok && (i%11 == 0 || c.Stale) && n < 8 && len(evs) > 0 && c.B > evs[0].E && c.E < ended {
+				n++
+				addCase(h.App("CView", h.Z(periodNs), w.viewTerm(v), h.Z(w.rel(v.Lo)), h.Z(w.rel(c.E)), h.Bool(c.Stale)),
+					map[string]any{"kind": "view-delay", "scenario": sc, "stale": c.Stale})
+				if !w.mem { // the trace semantics is the OS back end's (afero's in-memory files are also stamped by Close)
+					ce, cl := traceTerms(w, relevant(evs, c.B, c.E))
+					addCase(h.App("CTrace", h.Z(periodNs), ce, cl, h.Z(w.rel(c.B)), h.Z(w.rel(v.Lo)), h.Z(w.rel(c.B)), h.Z(w.rel(c.E)), h.Z(w.rel(v.Lo)), h.Z(w.rel(c.E)), h.Bool(c.Stale)),
+						map[string]any{"kind": "trace-delay", "scenario": sc, "stale": c.Stale})
+				}
+			}
+		}
+	}
+	if heartbeatNeeds[sc.Op] {
+		// the instants shift; a stale answer is judged like any other (latency vs logic)
+		for _, c := range polls {
+			if c.Stale {
+				judgeStale(w, H, c, sc)
+				break
+			}
+		}
+		return false, ""
+	}
+	if nd > 0 && nStale > 0 {
+		return true, fmt.Sprintf("live holder, context never cancelled: the heartbeat writer issued %d %s operation(s) on the heartbeat file during a hold of 12 periods; with each %s taking 60 ms the live lock was reported stale in %d of %d polls — an operation a heartbeat does not need sits between the instant the iteration takes (`now`) and the moment it lands, so the heartbeat is born old",
+			nd, sc.Op, sc.Op, nStale, len(polls))
+	}
+	return false, ""
+}
+
+func runDelayHold(sc scenario, emit bool) {
+	hit, what := oneDelayHold(sc, emit)
+	if !hit {
+		return
+	}
+	for i := 0; i < 3; i++ {
+		if h2, _ := oneDelayHold(sc, false); !h2 {
+			count("candidate-not-confirmed:" + sigUnneeded)
+			return
+		}
+	}
+	fail(sigUnneeded, what+" (confirmed 3 of 3)", sc)
+}
+
+// ------------------------------------------------------------------------------------------------
 // 2c. death by cancellation of the holder's context, without Unlock
 
 func runCancelDeath(sc scenario, emit bool) {
 	w := newWorld(root, false, nextName("cd-"))
-	H := w.actor(false)
+	H := w.holder()
 	ctx, cancel := context.WithCancel(context.Background())
 	defer cancel()
 	var err error
@@ -2102,7 +2292,7 @@ func runCancelDeath(sc scenario, emit bool) {
 	count("canceldeath:" + sc.Acquire)
 	distinct(fmt.Sprintf("canceldeath|%s|%d", sc.Acquire, sc.After))
 	if emit {
-		if term, _, _, _, ok := holderCase(w, ops, []apiCall{{Kind: "KCancelOwn", Same: true, At: cancelAt}}, 0); ok {
+		if term, _, _, _, ok := holderCase(w, ops, H.sh.Log(), []apiCall{{Kind: "KCancelOwn", Same: true, At: cancelAt}}, 0); ok {
 			addCase(term, map[string]any{"kind": "holder-cancelled", "scenario": sc, "iterations_after_cancel": late})
 		} else {
 			shapeBroken("holder operations cannot be expressed as a run of the holder machine", sc)
@@ -2183,7 +2373,7 @@ type holdResult struct {
 func runHold(sc scenario, emit bool, confirmMode bool) (res holdResult) {
 	w := newWorld(root, false, nextName("hold-"))
 	rng := newRng(sc.Seed)
-	H := w.actor(false)
+	H := w.holder()
 	ctx, cancel := context.WithCancel(context.Background())
 	defer cancel()
 	_, kill := killAfter(H, 1<<30)
@@ -2388,7 +2578,7 @@ func runHold(sc scenario, emit bool, confirmMode bool) (res holdResult) {
 	if int(atomic.LoadInt32(&refIters)) >= sc.Periods/2 && atomic.LoadInt64(&refMaxStep) < 3*periodNs && sc.Periods >= 2 {
 		aliveUntil = ended
 	}
-	term, maxGap, minStep, iters, ok := holderCase(w, hops, nil, aliveUntil)
+	term, maxGap, minStep, iters, ok := holderCase(w, hops, H.sh.Log(), nil, aliveUntil)
 	if ok && firstRemoval == int64(1<<62) {
 		if emit && !confirmMode {
 			addCase(term, map[string]any{"kind": "holder-hold", "scenario": sc, "iterations": iters})
@@ -2572,6 +2762,8 @@ func runScenario(sc scenario) {
 		runCancelDeath(sc, true)
 	case "busyhold":
 		runBusyHold(sc, true)
+	case "delayhold":
+		runDelayHold(sc, true)
 	case "planted":
 		for try := 0; try < 25; try++ {
 			if runPlanted(sc, true) {
@@ -2592,7 +2784,7 @@ func runScenario(sc scenario) {
 
 func main() {
 	r = h.Init("C17")
-	r.Imports = []string{"GU.C17.Model"}
+	r.Imports = []string{"GU.C17.Facts", "GU.C17.Model"}
 	r.Rule("planted lock states (no lock / directory only / 1..3 files; ages 0..1h, the 100/101 ms boundary with a fabricated clock; both back ends) x {IsStale, ReleaseIfStale, TryLock, TryLock+override}; " +
 		"death of the holder after each of its first file-system operations and in steady state (OS back end); seeded real-time holds of 1..40 (thorough 400) periods with 0..8 observers under CPU+I/O load, ended by Unlock or death. " +
 		"non-trivial = a lock exists; distinct by (operation, back end, number of files, expected answer, age in ms) resp. (death point) resp. (periods, observers, ending)")
@@ -2655,6 +2847,10 @@ func main() {
 	}
 	for i := 0; i < r.N(3, 20); i++ {
 		extra = append(extra, scenario{Kind: "busyhold", Seed: r.Rng.Int63(), Mem: r.Rng.Intn(4) == 0})
+	}
+	// 2e. one slow kind of backend operation at a time
+	for i, k := range []string{"OpenFile", "f.Write", "f.Sync", "f.Close", "Chtimes", "Stat", "Open", "f.Readdirnames", "f.Stat"} {
+		extra = append(extra, scenario{Kind: "delayhold", Op: k, Mem: i%4 == 3})
 	}
 	sem2 := make(chan struct{}, 6)
 	for _, sc := range extra {
